@@ -196,6 +196,9 @@ def run(run):
             run.notes.append('stopped at the deadline after %d rounds' % it)
             break
         n, m = rng.randint(1, 4), rng.randint(1, 4)
+        if it % 250 == 7:
+            # sizes beyond the small-integer range of the interpreter (counts above 256), tall or wide
+            n, m = rng.choice([(rng.randint(257, 300), 1), (1, rng.randint(257, 300)), (260, 2)])
         _, _, rows = gen.random_table(rng, n, m, rng.choice((.2, .5, .8)))
         objs = ['o%d' % i for i in range(n)]
         props = ['p%d' % j for j in range(m)]
